@@ -1,6 +1,11 @@
-(* C01 — the compiled program has exactly the models the specification describes.  (work in progress: see the level note)
-   Asp/Ground.v: ground programs of the emitted class and their stable models; hierarchical_stable is the characterisation
-   used for the core fragment.  Cnl/Core.v: the core fragment F0, its compile model (byte-exact on F0), grounding, and the reading. *)
+(* C01 -- the compiled program has exactly the models the specification describes.
+   Asp/Ground.v: ground programs of the emitted class and their stable models (reduct); C01_hierarchical_stable is the
+   characterisation used throughout.  Cnl/Core.v: the core fragment F0, its compile model (byte-exact against the implementation on
+   every run), grounding, and the reading.  Per-sentence end-to-end theorems (named instances, single-clause constraints with
+   'where' / 'is one of', choices with every cardinality phrase and for-each, single-clause definitions), their composition for
+   whole specifications (bounds, closedness, supportedness, hierarchy), and at the end of the file the property's statement on that
+   sub-fragment: C01_answer_sets_are_the_models_[with_definitions_]every_interpretation_partial.  Not covered: multi-clause
+   bodies, chained definitions, 'is one of' on definitions and choices (decided per specification by the exhaustive comparison). *)
 Require Import Coq.Strings.String Coq.Lists.List Coq.Bool.Bool.
 Require Import Coq.ZArith.ZArith Lia.
 Require Import Cnl2aspV.Asp.Ground Cnl2aspV.Cnl.Core Cnl2aspV.Cnl.CoreProofs Cnl2aspV.Cnl.CoreOneOf Cnl2aspV.Cnl.CoreDef Cnl2aspV.Cnl.CoreChoice Cnl2aspV.Cnl.CoreChoiceEach Cnl2aspV.Cnl.CoreWhere Cnl2aspV.Cnl.Comparison Cnl2aspV.Cnl.CoreProgram Cnl2aspV.Cnl.CoreSupport Cnl2aspV.Cnl.CoreStable Cnl2aspV.Cnl.CoreExact Cnl2aspV.Cnl.CoreStableDef.
